@@ -25,8 +25,9 @@ def check(run, replay):
     if not replay:
         sample = [json.loads(json.loads(open(src).readline()))["hist"]]
     cov = {"traces_validated_against_impl": r["behaviours"], "writes": r["writes"], "block_scans": r["block_scans"],
-           "plain_tokens_found_as_expected": r["plain_tokens_found_as_expected"], "samples": sample or [["replay"]],
-           "rule": "every complete behaviour of Crypto.tla (mode none/doc/each non-empty field subset x fields written at creation x up to 2-3 updates of any field subset); each written value is a unique byte pattern; after every step the block store and every update notification are scanned: patterns of covered fields must be absent, of uncovered fields present; the owner and a receiver given the keys read back the exact values; a receiver without keys stores no pattern of a covered field"}
+           "plain_tokens_found_as_expected": r["plain_tokens_found_as_expected"],
+           "peer_writes_merged": r.get("peer_writes_merged", 0), "peer_writes_refused": r.get("peer_writes_refused", 0), "samples": sample or [["replay"]],
+           "rule": "every complete behaviour of Crypto.tla (mode none/doc/each non-empty field subset x fields written at creation x up to 2-3 updates of any field subset); each written value is a unique byte pattern; after every step the block store and every update notification are scanned: patterns of covered fields must be absent, of uncovered fields present; the owner and a receiver given the keys read back the exact values; a receiver without keys stores no pattern of a covered field; in part of the behaviours a peer without keys writes a field itself and the owner merges it (sequentially or concurrently with an own update) before its next updates; the list of encrypted fields is passed in both orders"}
     run.finish("model_checking", viol, cov,
                ["symbolic cryptography: AES-GCM itself is trusted; what is checked is which payloads are encrypted and where plaintext can be found",
                 "the KMS role on the receiver is played by the harness on the node's event bus"])
